@@ -15,13 +15,14 @@ META = {
     "rule": ("case = {HUGR case (program AST, history?, metadata?), render configs}; distinct by JSON; non-trivial as "
              "for C01 (>= 6 nodes and an Ext/Dom/order/CF/static edge, poly call or insert_*)"),
     "required": ["monitor:repo-test-documents", "monitor:render", "monitor:render-default-config", "monitor:renderer-reused", "monitor:nodes", "monitor:clusters", "monitor:edges", "monitor:labels",
-                 "monitor:unchanged", "monitor:config-independence", "feature:order-edge", "feature:cf-edge",
+                 "monitor:unchanged", "monitor:config-independence", "monitor:cluster-count", "monitor:rerender-after-change", "cases:tiny", "feature:order-edge", "feature:cf-edge",
                  "feature:static-edge", "feature:metadata", "feature:ext-op-name", "monitor:parser-selftest"],
     "reach": ["hugr.hugr.render:DotRenderer.render", "hugr.hugr.render:DotRenderer._viz_node",
               "hugr.hugr.render:DotRenderer._viz_link"],
     "assumptions": [
-        "the DOT text is parsed by a harness-side parser for the subset the graphviz package emits; no layout is "
-        "attempted (no `dot` binary)",
+        "the DOT text is parsed by a harness-side parser for the subset the graphviz package emits and, when a `dot` "
+        "binary is on PATH (it is in this image), also read by Graphviz itself (`dot -Tcanon`; errors count, warnings "
+        "do not); store_dot is exercised on a sample with format svg",
         "the spelling of order-port endpoints (out.-1 / in.-1) is taken from links() as is",
         "port cells are those of Hugr.num_in_ports / num_out_ports",
     ],
@@ -45,6 +46,7 @@ def parse_dot(src):
     lines = src.split("\n")
     nodes = []   # (id, cluster stack, label text)
     edges = []   # (src, sport, dst, dport, label)
+    clusters = []  # (name, enclosing cluster stack)
     stack = []
     i = 0
     # header: `digraph [name] {`; a quoted name may contain newlines
@@ -73,6 +75,7 @@ def parse_dot(src):
             continue
         m = SUB_START.match(ln)
         if m:
+            clusters.append((m.group(2), tuple(stack)))
             stack.append(m.group(2))
             i += 1
             continue
@@ -99,7 +102,7 @@ def parse_dot(src):
         raise ParseError(f"unrecognised line {i}: {ln[:120]!r}")
     if stack or not depth_closed:
         raise ParseError("unbalanced braces")
-    return nodes, edges
+    return nodes, edges, clusters
 
 
 def display_name(op, qualify):
@@ -108,6 +111,32 @@ def display_name(op, qualify):
     if isinstance(op, AsExtOp) and not qualify:
         return op.op_def().name
     return op.name()
+
+
+_DOT: list = []
+
+
+def dot_binary():
+    if not _DOT:
+        import shutil
+
+        _DOT.append(shutil.which("dot"))
+    return _DOT[0]
+
+
+def graphviz_accepts(src):
+    """(accepted?, first error line) -- Graphviz's own parser reads the source (`dot -Tcanon`, no layout); warnings
+    (e.g. an edge naming the order port, which is no cell) are not errors.  None when it cannot be decided."""
+    import subprocess
+
+    try:
+        r = subprocess.run([dot_binary(), "-Tcanon"], input=src.encode(), capture_output=True, timeout=120)
+    except (OSError, subprocess.TimeoutExpired):
+        return None, "dot did not run"
+    err = [ln for ln in r.stderr.decode(errors="replace").splitlines() if ln.startswith("Error")]
+    if r.returncode != 0 or err:
+        return False, (err or [f"exit status {r.returncode}"])[0][:200]
+    return True, ""
 
 
 _COMPANION: list = []
@@ -138,7 +167,15 @@ def check_render(ctx, h, case, stratum, configs):
     def bad(kind, locus, exp, obs):
         ctx.disc(None, kind, locus, exp, obs, stratum=stratum, case=case)
 
+    import html
+
     before = observe(h, plus=True, renumber=False)
+    # what has to be drawn is fixed BEFORE anything is rendered (a renderer that changes the HUGR must not be judged
+    # against the changed HUGR)
+    cells_before = {n.idx: Counter([f"in.{k}" for k in range(h.num_in_ports(n))] +
+                                   [f"out.{k}" for k in range(h.num_out_ports(n))]) for n in h}
+    parents_before = {n.idx: (h[n].parent.idx if h[n].parent is not None else None) for n in h}
+    has_children = {n.idx for n in h if h.children(n)}
     structures = []
     for pal, qual in configs:
         ctx.count("monitor:render")
@@ -169,10 +206,20 @@ def check_render(ctx, h, case, stratum, configs):
             bad("render-raises", [pal, qual], "renders", f"{type(e).__name__}: {str(e)[:200]}")
             return
         try:
-            nodes, edges = parse_dot(src)
+            nodes, edges, clusters = parse_dot(src)
         except ParseError as e:
             bad("dot-not-parseable", [pal, qual], "DOT subset", str(e))
             return
+        if dot_binary():
+            ok, why = graphviz_accepts(src)
+            if ok is None:
+                ctx.count("graphviz-undecided")
+            else:
+                ctx.count("monitor:graphviz-accepts")
+                if not ok:
+                    bad("graphviz-rejects", [pal, qual], "Graphviz reads the DOT source", why)
+        else:
+            ctx.count("graphviz-absent")
         # ---- nodes
         ctx.count("monitor:nodes")
         ids = Counter(n for n, _, _ in nodes)
@@ -188,19 +235,19 @@ def check_render(ctx, h, case, stratum, configs):
             op = h[n].op
             name = display_name(op, qual)
             bolds = BOLD.findall(label)
-            if name not in bolds:
+            # the label is HTML-like: the name may be written with character references
+            if name not in bolds and name not in [html.unescape(b) for b in bolds]:
                 bad("node-name", nid, name, bolds[:3])
             ports = Counter(PORT.findall(label))
-            want_ports = Counter([f"in.{k}" for k in range(h.num_in_ports(n))] +
-                                 [f"out.{k}" for k in range(h.num_out_ports(n))])
+            want_ports = cells_before[nid]
             if ports != want_ports:
                 bad("port-cells", nid, sorted(want_ports.elements()), sorted(ports.elements()))
             chain = []
-            p = h[n].parent
+            p = parents_before[nid]
             while p is not None:
-                chain.append(p.idx)
-                p = h[p].parent
-            want_stack = [f"cluster{a}" for a in reversed(chain)] + ([f"cluster{nid}"] if h.children(n) else [])
+                chain.append(p)
+                p = parents_before[p]
+            want_stack = [f"cluster{a}" for a in reversed(chain)] + ([f"cluster{nid}"] if nid in has_children else [])
             ctx.count("monitor:clusters")
             if stack != want_stack:
                 bad("cluster-nesting", nid, want_stack, stack)
@@ -212,6 +259,13 @@ def check_render(ctx, h, case, stratum, configs):
                 ctx.feat("feature:ext-op-name")
             struct["nodes"][nid] = (tuple(stack), tuple(sorted(ports.elements())),
                                     name.split(".")[-1] if isinstance(op, AsExtOp) else name)
+        # one cluster per node that has children, no others
+        ctx.count("monitor:cluster-count")
+        got_cl = Counter(name for name, _ in clusters)
+        want_cl = Counter(f"cluster{i}" for i in has_children)
+        if got_cl != want_cl:
+            bad("cluster-statements", [pal, qual], sorted(want_cl.elements())[:6],
+                sorted(((got_cl - want_cl) + (want_cl - got_cl)).elements())[:6])
         # ---- edges
         ctx.count("monitor:edges")
         want_edges = Counter()
@@ -258,12 +312,86 @@ def check_render(ctx, h, case, stratum, configs):
                          stratum=stratum, case=case)
 
 
+def check_store(ctx, h, case, stratum):
+    """store_dot / DotRenderer.store: the rendering is handed to Graphviz and a file appears"""
+    import os
+    import tempfile
+
+    from hugr.hugr.render import DotRenderer, Palette, RenderConfig
+
+    if not dot_binary():
+        ctx.count("graphviz-absent")
+        return
+    base = os.environ.get("VERIF_RUN_DIR") or None
+    with tempfile.TemporaryDirectory(dir=base) as td:
+        for how in ("store_dot", "renderer.store"):
+            ctx.count("monitor:store")
+            fn = os.path.join(td, how)
+            try:
+                if how == "store_dot":
+                    h.store_dot(fn, format="svg", config=RenderConfig(Palette.named("zx"), True))
+                else:
+                    DotRenderer().store(h, fn, "svg")
+            except Exception as e:  # noqa: BLE001
+                ctx.disc(None, f"store-raises[{how}]", type(e).__name__, "a file is written",
+                         f"{type(e).__name__}: {str(e)[-300:]}", stratum=stratum, case=case)
+                continue
+            out = fn + ".svg"
+            if not (os.path.exists(out) and os.path.getsize(out) > 0):
+                ctx.disc(None, f"store-no-file[{how}]", how, "a non-empty .svg file", "missing or empty",
+                         stratum=stratum, case=case)
+
+
+def check_rerender(ctx, h, case, stratum):
+    """one renderer object, the same HUGR object drawn, changed and drawn again (and the renderer's configuration
+    replaced in between): the second drawing is what a fresh renderer draws.  Mutates h -- runs last."""
+    from hugr import ops, tys
+    from hugr.hugr.render import PALETTE, DotRenderer, RenderConfig
+
+    ctx.count("monitor:rerender-after-change")
+    rr = DotRenderer(RenderConfig(PALETTE["default"], False))
+    rr.render(h)
+    nodes = list(h)
+    n = h.add_node(ops.Custom("late", tys.FunctionType([tys.Bool], [tys.Bool]), extension="verif.late"),
+                   h.root, metadata={"late": 1})
+    h.add_link(n.out(0), n.inp(0))
+    h.add_order_link(n, n)
+    h[nodes[len(nodes) // 2]].metadata["changed"] = "yes"
+    for cfg in (RenderConfig(PALETTE["default"], False), RenderConfig(PALETTE["nb"], True)):
+        rr.config = cfg
+        if rr.render(h).source != DotRenderer(cfg).render(h).source:
+            ctx.disc(None, "stale-render-after-change", [cfg.qualify_op_name], "the DOT source a fresh renderer produces",
+                     "differs", stratum=stratum, case=case)
+
+
+def build_tiny(k):
+    from hugr import Hugr, ops, tys
+    from hugr.build import Dfg
+
+    if k == 0:
+        return Hugr()                                   # a module root and nothing else
+    if k == 1:
+        return Hugr(ops.DFG([tys.Bool], [tys.Bool]))    # a dataflow root without children
+    if k == 2:
+        d = Dfg(tys.Bool)                               # a container node that has no children
+        d.hugr.add_node(ops.DFG([], []), d.parent_node)
+        d.set_outputs(*d.inputs())
+        return d.hugr
+    if k == 3:
+        h = Hugr()
+        h.add_node(ops.FuncDecl("f<&>", tys.PolyFuncType([], tys.FunctionType.empty())), h.root)
+        return h
+    h = Hugr(ops.CFG([], []))
+    return h
+
+
 def selftest(ctx):
     good = 'digraph {\n\tbgcolor=white\n\tsubgraph cluster0 {\n\t\t1 [label=<\n<B>X</B> PORT="out.0"\n    > shape=plain]\n' \
            '\t\t0 [label=<\n<B>R</B>\n    > shape=plain]\n\t\tcolor=red\n\t}\n\t1:"out.0" -> 1:"in.-1" [label="a b" color=x]\n}\n'
     try:
-        n, e = parse_dot(good)
-        ok = [x[0] for x in n] == [1, 0] and n[0][1] == ["cluster0"] and e == [(1, "out.0", 1, "in.-1", "a b")]
+        n, e, cl = parse_dot(good)
+        ok = ([x[0] for x in n] == [1, 0] and n[0][1] == ["cluster0"] and e == [(1, "out.0", 1, "in.-1", "a b")]
+              and cl == [("cluster0", ())])
         try:
             parse_dot(good.replace("\t}\n\t1:", "\t1:"))
             ok = False
@@ -297,6 +425,17 @@ def run(ctx):
             ctx.count("monitor:repo-test-documents")
             ctx.guard("render", case, go)
             ctx.case("render", case, len(c["doc"]["nodes"]) >= 6)
+    for k in ctx.mine(5):
+        case = {"tiny": k, "configs": [list(x) for x in allcfg] + [[None, False]], "store": True, "rerender": True}
+
+        def go_tiny(case=case):
+            h = build_tiny(case["tiny"])
+            check_render(ctx, h, case, "tiny", [tuple(c) for c in case["configs"]])
+            check_store(ctx, h, case, "tiny")
+            check_rerender(ctx, h, case, "tiny")
+
+        ctx.guard("tiny", case, go_tiny)
+        ctx.case("tiny", case, False)
     for i in ctx.mine(ctx.n(800, 25000)):
         r = ctx.rng("render", i)
         case = {"prog": gen_program(r, budget=25)}
@@ -308,11 +447,20 @@ def run(ctx):
             case["hist"] = (case.get("hist") or []) + gen_history_on(r, 10, max_steps=8)
         cfgs = allcfg if not ctx.quick or i % 8 == 0 else [allcfg[0], r.choice(allcfg[1:])]
         case["configs"] = [list(c) for c in cfgs] + ([[None, False]] if i % 3 == 0 else [])
+        if i % 10 == 5:
+            case["store"] = True
+        if i % 4 == 1:
+            case["rerender"] = True
 
         def go():
             h, info = c02.build(case)
+            nn = len(h)
             check_render(ctx, h, case, "render", [tuple(c) for c in case["configs"]])
-            return len(h)
+            if case.get("store"):
+                check_store(ctx, h, case, "render")
+            if case.get("rerender"):
+                check_rerender(ctx, h, case, "render")
+            return nn
 
         nn = ctx.guard("render", case, go)
         ctx.case("render", case, nn is not None and nontrivial(case["prog"], nn))
@@ -322,5 +470,10 @@ def replay(ctx, rec):
     from vf.props import c02
 
     case = rec["case"]
-    h, _ = c02.build(case)
-    check_render(ctx, h, case, "render", [tuple(c) for c in case["configs"]])
+    stratum = rec.get("stratum") or "render"
+    h = build_tiny(case["tiny"]) if "tiny" in case else c02.build(case)[0]
+    check_render(ctx, h, case, stratum, [tuple(c) for c in case["configs"]])
+    if case.get("store"):
+        check_store(ctx, h, case, stratum)
+    if case.get("rerender"):
+        check_rerender(ctx, h, case, stratum)
